@@ -230,6 +230,12 @@ pub fn forests(parent: Option<u64>, budget: usize, rich: bool, out: &mut Vec<Vec
         }
     }
 }
+fn with_width(nodes: &[Node], w: usize) -> Vec<Node> {
+    nodes.iter().map(|n| match n {
+        Node::M { id, unknown, ch, .. } => Node::M { id: *id, unknown: *unknown, width: w, ch: with_width(ch, w) },
+        Node::L { tag, .. } => Node::L { tag: tag.clone(), width: w },
+    }).collect()
+}
 fn count_masters(nodes: &[Node]) -> usize { nodes.iter().map(|n| match n { Node::M { ch, .. } => 1 + count_masters(ch), _ => 0 }).sum() }
 /// set `unknown` on the masters selected by the bits of `mask` (pre-order numbering)
 fn with_unknown(nodes: &[Node], mask: u32, next: &mut u32) -> Vec<Node> {
@@ -450,12 +456,14 @@ fn check_input(table: &bs::Table, input: &[u8], rep: &mut Report, thorough: bool
     }
     // C13/C17: size limits
     for m in [0usize, 1, 5] {
-        let cfg = Cfg { max: Some(Some(m)), ..Cfg::strict() };
-        let t = run(input, &cfg);
-        check_total(input, &cfg, &t, rep);
-        let ctx = || format!("input={} max={} -> {}", rf::hex(input), m, show_trace(&t));
-        let over = t.items.iter().any(|(tag, off)| !matches!(tag, T::M(_, Master::End)) && matches!(rf::hdr_at(input, *off), Hdr::Ok { size: Some(n), .. } if n as usize > m));
-        rep.clause("C13/C17: with a size limit M no successful item declares a size above M", !over, &ctx);
+        for allow in [0u8, 7, 1, 2, 4, 6] {
+            let cfg = Cfg { max: Some(Some(m)), allow, ..Cfg::strict() };
+            let t = run(input, &cfg);
+            check_total(input, &cfg, &t, rep);
+            let ctx = || format!("input={} max={} allow={} -> {}", rf::hex(input), m, allow, show_trace(&t));
+            let over = t.items.iter().any(|(tag, off)| !matches!(tag, T::M(_, Master::End)) && matches!(rf::hdr_at(input, *off), Hdr::Ok { size: Some(n), .. } if n as usize > m));
+            rep.clause("C13/C17: with a size limit M no successful item declares a size above M, whatever classes are tolerated", !over, &ctx);
+        }
     }
     {
         let cfg = Cfg { max: Some(None), ..Cfg::strict() };
@@ -581,11 +589,21 @@ pub fn unit_docs(budget: usize, thorough: bool) -> Report {
                 rep.clause("C07: a document with any subset of masters encoded with unknown size reads as the same tag sequence as the all-known-size encoding", same, || format!("{} unknown-mask={:b} bytes={} -> {}", ctxd(), mask, rf::hex(&ub), show_trace(&t)));
                 let same_off = same && t.items.iter().zip(uflat.iter()).all(|(a, b)| a.1 == b.1);
                 rep.clause("C03/C07: offsets of an unknown-size encoding are those of its own bytes", same_off || !same, || format!("{} unknown-mask={:b} -> {}", ctxd(), mask, show_trace(&t)));
-                check_input(&table, &ub, &mut rep, thorough, false);
-                if thorough { check_trunc(&table, &ub, &uflat, &mut rep); }
+                // headers longer than 8 bytes (8-byte unknown-size fields) under every capacity / chunking / mask
+                check_input(&table, &ub, &mut rep, thorough, true);
+                if thorough || mask == (1 << m) - 1 { check_trunc(&table, &ub, &uflat, &mut rep); }
             }
         }
         check_trunc(&table, &bytes, &flat, &mut rep);
+        // the same forest with every size field two bytes wide (multi-byte size fields: cuts inside them, wider headers)
+        {
+            let dw = with_width(d, 2);
+            let (wb, wflat) = encode_doc(&dw);
+            let t = run(&wb, &Cfg::strict());
+            rep.clause("C01r/C03: a specification-conformant document reads (strict) as exactly its tags, in order, with their offsets, and no error", t.err.is_none() && t.panicked.is_none() && same_items(&t.items, &wflat), || format!("{} width2-bytes={} -> {}", ctxd(), rf::hex(&wb), show_trace(&t)));
+            check_input(&table, &wb, &mut rep, thorough, false);
+            check_trunc(&table, &wb, &wflat, &mut rep);
+        }
         check_recover(&table, &bytes, &flat, &mut rep, thorough);
         check_c02(&table, &bytes, &tr, &mut rep);
         check_pauses(&table, &bytes, &flat, &tr, &mut rep);
